@@ -6,8 +6,12 @@ STD = ["Go harness generators and canonicalisation", "hand-written Lean model ti
 PROPS = {
     "C01": {
         "spec_key": "c01",
-        "runs": [{"engine": "seq", "mode": "c01", "n_quick": 1500, "n_thorough": 1400000}],
-        "rule": "histories of 5-25 (thorough: 5-60) public operations over a pool of 1-3 generated frames; "
+        "runs": [{"engine": "seq", "mode": "c01", "n_quick": 1500, "n_thorough": 1400000},
+                 # the imports on their own inputs, well-formed and malformed: whatever they return is rectangular
+                 {"engine": "csv", "mode": "imp", "n_quick": 1500, "n_thorough": 400000},
+                 {"engine": "sqlr", "mode": "", "n_quick": 800, "n_thorough": 200000}],
+        "rule": "histories of 5-25 (thorough: 5-60) public operations over a pool of 1-3 generated frames; CSV import of generated and "
+                "byte-mutated texts and SQL import of configured result sets; "
                 "distinct = different protocol line; non-trivial = at least one successful step on a frame with >= 2 rows",
         "assumptions": ["user-supplied columns have the receiver's length (the property's own side condition)",
                         "callbacks come from the closed family implemented identically in Go and Lean"],
@@ -55,8 +59,8 @@ _rel("C03", "c03", "c03", "pairs of frames (0-8 rows, sometimes up to 30) sharin
      "alphabet mixing nil/int/int64/float/string/bool, 0-3 payload columns each, all four join kinds, 1-3 joins")
 _rel("C06", "c06", "c06", "frames of 0-40 rows (25% exactly two rows, which reveals Less(1,0)), 1-3 columns of one kind each with many "
      "ties and nils, 0-2 sort columns incl. unknown ones, both directions")
-_rel("C07", "c07", "c07", "frames whose columns draw from alphabets built to collide under a non-injective key "
-     "(x|b:y, nil vs \"nil\", 1 vs \"1\", int vs int64), all Keep values incl. invalid, subsets incl. unknown, both Inplace values")
+_rel("C07", ["c07", "c02"], "c07", "frames whose columns draw from alphabets built to collide under a non-injective key "
+     "(x|b:y, nil vs \"nil\", 1 vs \"1\", int vs int64), all Keep values incl. invalid, subsets incl. unknown, both Inplace values, interleaved with in-place edits of receiver and result (without Inplace the result must be a new frame)")
 _rel("C08", "c08", "c08", "frames of 0-12 rows x 0-4 columns; Head/Tail/RowSlice with boundary counts, Filter with an explicit accept "
      "set and a recorded call log, Iloc/Loc with repeats and absent labels, MultiSelect, DropRow, DropColumn, Row, ColumnNames, Nrows/Ncols")
 _rel("C15", "c15", "c15", "frames with every nil pattern; FillNa with every kind of value; Astype over valid/unknown targets and columns "
